@@ -1,8 +1,351 @@
-//! engine `f2` (stub: to be filled in)
-use crate::util::Tr;
+//! C17: quizx::linalg::Mat2 (F2 matrices) recorded call by call; TLC validates every logged result
+//! against spec/F2.tla (mc/Trace_F2.tla).  No hook in the code under test is needed: gauss_x takes a
+//! row-operation proxy (`impl RowOps`), and `Rec` below is such a proxy that logs what it receives
+//! (and forwards the operations to another Mat2 through the code's own RowOps impl).
+//!
+//!   --exhaustive R,C   (repeatable) every 0/1 matrix with 1..=R rows and 1..=C columns,
+//!                      all block sizes 1..=cols, both modes
+//!   --random K --maxdim D   K seeded random matrices up to D x D (several densities; low rank,
+//!                      duplicate rows, zero rows/columns, repeated sub-rows per block, invertible by
+//!                      construction), block sizes {1, 2, 3, cols, two random ones}
+//!   --stride S         take every S-th matrix of the exhaustive family (offset seed % S)
+
+use crate::util::{arg_num, guarded, Tr};
+use quizx::linalg::{ColOps, Mat2, RowOps};
+use rand::rngs::StdRng;
+use rand::Rng;
 use serde_json::{json, Value};
 
-#[allow(unused_variables)]
+/// The recording proxy handed to gauss_x.
+struct Rec {
+    ops: Vec<(&'static str, usize, usize)>,
+    inner: Option<Mat2>,
+}
+
+impl RowOps for Rec {
+    fn row_add(&mut self, r0: usize, r1: usize) {
+        self.ops.push(("add", r0, r1));
+        if let Some(x) = self.inner.as_mut() {
+            x.row_add(r0, r1);
+        }
+    }
+    fn row_swap(&mut self, r0: usize, r1: usize) {
+        self.ops.push(("swap", r0, r1));
+        if let Some(x) = self.inner.as_mut() {
+            x.row_swap(r0, r1);
+        }
+    }
+}
+
+fn mj(m: &Mat2) -> Value {
+    Value::Array((0..m.num_rows()).map(|i| json!(m[i].clone())).collect())
+}
+
+fn opsj(ops: &[(&'static str, usize, usize)]) -> Value {
+    Value::Array(ops.iter().map(|(k, a, b)| json!([k, a, b])).collect())
+}
+
+fn rand_mat(r: &mut StdRng, rows: usize, cols: usize, p: f64) -> Mat2 {
+    Mat2::new((0..rows).map(|_| (0..cols).map(|_| r.random_bool(p) as u8).collect()).collect())
+}
+
+#[derive(Default)]
+struct Counts {
+    matrices: usize,
+    gauss_runs: usize,
+    ops_logged: usize,
+    panics: usize,
+    inverse_some: usize,
+    inverse_none: usize,
+    nullspace_vectors: usize,
+    max_rows: usize,
+    max_cols: usize,
+    kinds: std::collections::BTreeMap<String, usize>,
+}
+
+fn panic_ev(k: &str, msg: String, extra: Value, c: &mut Counts) -> Value {
+    c.panics += 1;
+    let mut e = json!({"k": k, "res": "panic", "msg": msg});
+    if let (Some(o), Some(x)) = (e.as_object_mut(), extra.as_object()) {
+        for (kk, v) in x {
+            o.insert(kk.clone(), v.clone());
+        }
+    }
+    e
+}
+
+/// All calls of the property on one matrix = one group (one execution).
+fn one(m: &Mat2, bss: &[usize], kind: &str, r: &mut StdRng, tr: &mut Tr, c: &mut Counts) {
+    let (rows, cols) = (m.num_rows(), m.num_cols());
+    c.matrices += 1;
+    c.max_rows = c.max_rows.max(rows);
+    c.max_cols = c.max_cols.max(cols);
+    *c.kinds.entry(kind.to_string()).or_default() += 1;
+    tr.group();
+    tr.emit(json!({"k": "begin", "m": mj(m), "rows": rows, "cols": cols, "kind": kind}));
+
+    // gauss_x with the recording proxy; the proxy forwards to another matrix x (identity / random)
+    let mut last_ops: Vec<(&'static str, usize, usize)> = vec![];
+    let mut idx = 0usize;
+    for &full in &[false, true] {
+        for &bs in bss {
+            let x = if idx % 2 == 0 { Mat2::id(rows) } else { let k = r.random_range(1..=3usize); rand_mat(r, rows, k, 0.5) };
+            idx += 1;
+            let mut w = m.clone();
+            let mut rec = Rec { ops: vec![], inner: Some(x.clone()) };
+            let res = guarded(|| w.gauss_x(full, bs, &mut rec));
+            c.gauss_runs += 1;
+            match res {
+                Err(msg) => tr.emit(panic_ev("gauss", msg, json!({"api": "gauss_x", "full": full, "blocksize": bs}), c)),
+                Ok(rank) => {
+                    c.ops_logged += rec.ops.len();
+                    tr.emit(json!({"k": "gauss", "api": "gauss_x", "full": full, "blocksize": bs, "res": "ok",
+                                   "ops": opsj(&rec.ops), "out": mj(&w), "rank": rank}));
+                    tr.emit(json!({"k": "rowops_on_other", "how": "direct", "ops": opsj(&rec.ops), "x": mj(&x), "res": "ok",
+                                   "out": mj(rec.inner.as_ref().unwrap())}));
+                    last_ops = rec.ops;
+                }
+            }
+        }
+    }
+    // the operations of the last run replayed by the harness on a fresh matrix through Mat2's RowOps impl
+    {
+        let k = r.random_range(1..=3usize);
+        let x = rand_mat(r, rows, k, 0.5);
+        let mut y = x.clone();
+        let ops = last_ops.clone();
+        match guarded(|| {
+            for (kd, a, b) in &ops {
+                if *kd == "add" { y.row_add(*a, *b) } else { y.row_swap(*a, *b) }
+            }
+        }) {
+            Err(msg) => tr.emit(panic_ev("rowops_on_other", msg, json!({"how": "replay"}), c)),
+            Ok(()) => tr.emit(json!({"k": "rowops_on_other", "how": "replay", "ops": opsj(&ops), "x": mj(&x), "res": "ok", "out": mj(&y)})),
+        }
+    }
+    // arbitrary row / column operations (including swaps and r0 = r1) through the RowOps / ColOps impls
+    {
+        let n = r.random_range(1..=6usize);
+        let rops: Vec<(&'static str, usize, usize)> = (0..n)
+            .map(|_| (if r.random_bool(0.5) { "add" } else { "swap" }, r.random_range(0..rows), r.random_range(0..rows)))
+            .collect();
+        let cops: Vec<(&'static str, usize, usize)> = (0..n)
+            .map(|_| (if r.random_bool(0.5) { "add" } else { "swap" }, r.random_range(0..cols), r.random_range(0..cols)))
+            .collect();
+        let mut y = m.clone();
+        match guarded(|| {
+            for (kd, a, b) in &rops {
+                if *kd == "add" { y.row_add(*a, *b) } else { y.row_swap(*a, *b) }
+            }
+        }) {
+            Err(msg) => tr.emit(panic_ev("rowops_on_other", msg, json!({"how": "random"}), c)),
+            Ok(()) => tr.emit(json!({"k": "rowops_on_other", "how": "random", "ops": opsj(&rops), "x": mj(m), "res": "ok", "out": mj(&y)})),
+        }
+        let mut z = m.clone();
+        match guarded(|| {
+            for (kd, a, b) in &cops {
+                if *kd == "add" { z.col_add(*a, *b) } else { z.col_swap(*a, *b) }
+            }
+        }) {
+            Err(msg) => tr.emit(panic_ev("colops", msg, json!({}), c)),
+            Ok(()) => tr.emit(json!({"k": "colops", "ops": opsj(&cops), "res": "ok", "out": mj(&z)})),
+        }
+    }
+    // gauss(full): block size 3, unit proxy
+    for &full in &[false, true] {
+        let mut w = m.clone();
+        c.gauss_runs += 1;
+        match guarded(|| w.gauss(full)) {
+            Err(msg) => tr.emit(panic_ev("gauss", msg, json!({"api": "gauss", "full": full, "blocksize": 3}), c)),
+            Ok(rank) => tr.emit(json!({"k": "gauss", "api": "gauss", "full": full, "blocksize": 3, "res": "ok",
+                                       "ops": [], "out": mj(&w), "rank": rank})),
+        }
+    }
+    match guarded(|| m.rank()) {
+        Err(msg) => tr.emit(panic_ev("rank", msg, json!({}), c)),
+        Ok(k) => tr.emit(json!({"k": "rank", "res": "ok", "ret": k})),
+    }
+    match guarded(|| m.inverse()) {
+        Err(msg) => tr.emit(panic_ev("inverse", msg, json!({}), c)),
+        Ok(None) => {
+            c.inverse_none += 1;
+            tr.emit(json!({"k": "inverse", "res": "none", "out": []}))
+        }
+        Ok(Some(inv)) => {
+            c.inverse_some += 1;
+            tr.emit(json!({"k": "inverse", "res": "some", "out": mj(&inv)}))
+        }
+    }
+    match guarded(|| m.nullspace()) {
+        Err(msg) => tr.emit(panic_ev("nullspace", msg, json!({}), c)),
+        Ok(vs) => {
+            c.nullspace_vectors += vs.len();
+            // each basis vector is returned as a matrix; logged flattened (row-major)
+            let out: Vec<Value> = vs.iter().map(|v| json!((0..v.num_rows()).flat_map(|i| v[i].clone()).collect::<Vec<u8>>())).collect();
+            tr.emit(json!({"k": "nullspace", "res": "ok", "out": out}))
+        }
+    }
+    match guarded(|| (m.transpose(), m.transpose().transpose())) {
+        Err(msg) => tr.emit(panic_ev("transpose", msg, json!({}), c)),
+        Ok((t, tt)) => tr.emit(json!({"k": "transpose", "res": "ok", "out": mj(&t), "out2": mj(&tt)})),
+    }
+    let k = r.random_range(1..=3usize);
+    let b = rand_mat(r, k, cols, 0.5);
+    match guarded(|| m.vstack(&b)) {
+        Err(msg) => tr.emit(panic_ev("vstack", msg, json!({"b": mj(&b)}), c)),
+        Ok(o) => tr.emit(json!({"k": "vstack", "b": mj(&b), "res": "ok", "out": mj(&o)})),
+    }
+    let k = r.random_range(1..=3usize);
+    let b = rand_mat(r, rows, k, 0.5);
+    match guarded(|| m.hstack(&b)) {
+        Err(msg) => tr.emit(panic_ev("hstack", msg, json!({"b": mj(&b)}), c)),
+        Ok(o) => tr.emit(json!({"k": "hstack", "b": mj(&b), "res": "ok", "out": mj(&o)})),
+    }
+    // products: m * b (random b), m * m^T, and, when an inverse was returned, nothing more (TLC multiplies itself)
+    for j in 0..2 {
+        let b = if j == 0 {
+            let k = r.random_range(1..=cols.min(4) + 1);
+            rand_mat(r, cols, k, 0.5)
+        } else {
+            m.transpose()
+        };
+        match guarded(|| m * &b) {
+            Err(msg) => tr.emit(panic_ev("mul", msg, json!({"b": mj(&b)}), c)),
+            Ok(o) => tr.emit(json!({"k": "mul", "b": mj(&b), "res": "ok", "out": mj(&o)})),
+        }
+    }
+}
+
+/// seeded random matrix of one of several structural kinds
+fn random_matrix(r: &mut StdRng, maxdim: usize) -> (Mat2, &'static str) {
+    let big = r.random_bool(0.4);
+    let lo = if big { (maxdim / 2).max(1) } else { 1 };
+    let rows = r.random_range(lo..=maxdim);
+    let cols = if r.random_bool(0.4) { rows } else { r.random_range(lo..=maxdim) };
+    match r.random_range(0..9) {
+        0 => (rand_mat(r, rows, cols, 0.5), "half"),
+        1 => (rand_mat(r, rows, cols, 0.15), "sparse"),
+        2 => (rand_mat(r, rows, cols, 0.85), "dense"),
+        3 => {
+            // low rank: (rows x k) * (k x cols)
+            let k = r.random_range(1..=rows.min(cols).div_ceil(2));
+            (&rand_mat(r, rows, k, 0.5) * &rand_mat(r, k, cols, 0.5), "lowrank")
+        }
+        4 => {
+            // duplicate rows
+            let mut m = rand_mat(r, rows, cols, 0.5);
+            for _ in 0..r.random_range(1..=rows) {
+                let (a, b) = (r.random_range(0..rows), r.random_range(0..rows));
+                m[b] = m[a].clone();
+            }
+            (m, "duprows")
+        }
+        5 => {
+            // zero rows and zero columns
+            let mut m = rand_mat(r, rows, cols, 0.6);
+            for _ in 0..r.random_range(1..=rows.div_ceil(3)) {
+                let a = r.random_range(0..rows);
+                m[a] = vec![0; cols];
+            }
+            for _ in 0..r.random_range(0..=cols / 3) {
+                let b = r.random_range(0..cols);
+                for i in 0..rows {
+                    m[i][b] = 0;
+                }
+            }
+            (m, "zerorows")
+        }
+        6 => {
+            // invertible by construction: random transvections and swaps on the identity
+            let n = rows;
+            let mut m = Mat2::id(n);
+            if n > 1 {
+                for _ in 0..(4 * n) {
+                    let (a, b) = (r.random_range(0..n), r.random_range(0..n));
+                    if a != b {
+                        if r.random_bool(0.8) { m.row_add(a, b) } else { m.row_swap(a, b) }
+                    }
+                }
+            }
+            (m, "invertible")
+        }
+        7 => {
+            // repeated sub-rows: every row is assembled block by block from a small pool of chunks
+            let w = r.random_range(1..=4usize.min(cols));
+            let pool: Vec<Vec<u8>> = (0..3).map(|_| (0..w).map(|_| r.random_bool(0.5) as u8).collect()).collect();
+            let d = (0..rows)
+                .map(|_| {
+                    let mut row: Vec<u8> = vec![];
+                    while row.len() < cols {
+                        row.extend(pool[r.random_range(0..3)].iter());
+                    }
+                    row.truncate(cols);
+                    row
+                })
+                .collect();
+            (Mat2::new(d), "chunky")
+        }
+        _ => {
+            // triangular with unit diagonal on the common part, possibly permuted rows
+            let mut m = Mat2::build(rows, cols, |i, j| i == j);
+            for i in 0..rows {
+                for j in (i + 1)..cols {
+                    m[i][j] = r.random_bool(0.5) as u8;
+                }
+            }
+            for _ in 0..rows {
+                let (a, b) = (r.random_range(0..rows), r.random_range(0..rows));
+                m.row_swap(a, b);
+            }
+            (m, "triangular")
+        }
+    }
+}
+
 pub fn record(args: &[String], seed: u64, tr: &mut Tr) -> Value {
-    json!({"stub": true})
+    let mut c = Counts::default();
+    let mut r = crate::gens::rng(seed ^ 0xf2f2);
+    // ---- exhaustive family ----
+    let mut shapes: Vec<(usize, usize)> = vec![];
+    for e in args.iter().enumerate().filter(|(_, a)| *a == "--exhaustive").map(|(i, _)| args[i + 1].clone()) {
+        let p: Vec<usize> = e.split(',').map(|x| x.parse().expect("--exhaustive R,C")).collect();
+        for rows in 1..=p[0] {
+            for cols in 1..=p[1] {
+                if !shapes.contains(&(rows, cols)) {
+                    shapes.push((rows, cols));
+                }
+            }
+        }
+    }
+    shapes.sort();
+    let stride: usize = arg_num::<usize>(args, "--stride", 1).max(1);
+    let offset = seed as usize % stride;
+    let mut idx = 0usize;
+    let mut exhaustive = 0usize;
+    for &(rows, cols) in &shapes {
+        let bss: Vec<usize> = (1..=cols).collect();
+        for bits in 0u64..(1u64 << (rows * cols)) {
+            if idx % stride == offset {
+                let m = Mat2::build(rows, cols, |i, j| (bits >> (i * cols + j)) & 1 == 1);
+                one(&m, &bss, "exhaustive", &mut r, tr, &mut c);
+                exhaustive += 1;
+            }
+            idx += 1;
+        }
+    }
+    // ---- seeded random matrices ----
+    let nrand: usize = arg_num(args, "--random", 0);
+    let maxdim: usize = arg_num(args, "--maxdim", 24);
+    for _ in 0..nrand {
+        let (m, kind) = random_matrix(&mut r, maxdim);
+        let cols = m.num_cols();
+        let mut bss = vec![1, 2, 3, cols, r.random_range(1..=cols), r.random_range(1..=cols)];
+        bss.retain(|b| *b >= 1 && *b <= cols);
+        bss.sort();
+        bss.dedup();
+        one(&m, &bss, kind, &mut r, tr, &mut c);
+    }
+    json!({"matrices": c.matrices, "exhaustive": exhaustive, "random": nrand, "shapes": shapes.len(), "gauss_runs": c.gauss_runs,
+           "ops_logged": c.ops_logged, "panics": c.panics, "inverse_some": c.inverse_some, "inverse_none": c.inverse_none,
+           "nullspace_vectors": c.nullspace_vectors, "max_rows": c.max_rows, "max_cols": c.max_cols, "kinds": c.kinds})
 }
